@@ -7,6 +7,7 @@ import (
 	"math/rand"
 	"reflect"
 
+	modbus "github.com/aldas/go-modbus-client"
 	"github.com/aldas/go-modbus-client/packet"
 )
 
@@ -552,6 +553,10 @@ func driveCodec(w *writer) error {
 			w.emit(doCoil(&c))
 		case "trailer":
 			doTrailer(w, &c)
+		case "coilextract":
+			w.emit(doCoilExtract(&c))
+		case "coilroundtrip":
+			w.emit(doCoilRoundTrip(&c))
 		default:
 			return fmt.Errorf("unknown codec op %q", c.Op)
 		}
@@ -1003,4 +1008,78 @@ func doTrailer(w *writer, c *codecCase) {
 		w.emit(Ev{"op": "trailer", "entry": c.Entry, "frame": ints(b), "outcome": r.outcome,
 			"errCRC": b2i(r.err != nil && errors.Is(r.err, packet.ErrInvalidCRC))})
 	}
+}
+
+// doCoilExtract: builder-style extraction of coil fields from an FC1/FC2 response (BuilderRequest.ExtractFields)
+func doCoilExtract(c *codecCase) Ev {
+	e := Ev{"op": "coilextract", "fc": c.Fc, "payload": orEmpty(c.Payload), "start": c.Start, "addrs": orEmpty(c.Data), "outcome": "ok", "results": []Ev{}}
+	func() {
+		defer func() {
+			if p := recover(); p != nil {
+				e["outcome"] = "panic"
+			}
+		}()
+		data := withTail(bytesOf(c.Payload), []byte{0xFF, 0xFF})
+		fields := modbus.Fields{}
+		for i, a := range c.Data {
+			fields = append(fields, modbus.Field{Name: fmt.Sprintf("c%d", i), ServerAddress: "x:1", UnitID: 1, Address: uint16(a), Type: modbus.FieldTypeCoil})
+		}
+		br := modbus.BuilderRequest{StartAddress: uint16(c.Start), Fields: fields}
+		var resp packet.Response
+		if c.Fc == 1 {
+			resp = &packet.ReadCoilsResponseTCP{ReadCoilsResponse: packet.ReadCoilsResponse{UnitID: 1, CoilsByteLength: uint8(len(data)), Data: data}}
+		} else {
+			resp = &packet.ReadDiscreteInputsResponseTCP{ReadDiscreteInputsResponse: packet.ReadDiscreteInputsResponse{UnitID: 1, InputsByteLength: uint8(len(data)), Data: data}}
+		}
+		vals, _ := br.ExtractFields(resp, true)
+		res := []Ev{}
+		for _, fv := range vals {
+			r := Ev{"addr": int(fv.Field.Address), "outcome": "ok", "value": 0}
+			if fv.Error != nil {
+				r["outcome"] = "err"
+			} else if b, ok := fv.Value.(bool); ok {
+				r["value"] = b2i(b)
+			} else {
+				r["outcome"] = "badtype"
+			}
+			res = append(res, r)
+		}
+		e["results"] = res
+	}()
+	return e
+}
+
+// doCoilRoundTrip: write-multiple-coils request built by the library; a device that stores the request's
+// coil bytes answers a read of the same range with exactly those bytes; every coil is then looked up.
+func doCoilRoundTrip(c *codecCase) Ev {
+	e := Ev{"op": "coilroundtrip", "framing": c.Framing, "start": c.Addr, "coils": orEmpty(c.Coils), "accepted": false, "bytes": []int{}, "got": []int{}, "outcome": "ok"}
+	func() {
+		defer func() {
+			if p := recover(); p != nil {
+				e["outcome"] = "panic"
+			}
+		}()
+		cc := *c
+		cc.Fc = 15
+		r, err := newReq(&cc)
+		if err != nil || r == nil {
+			return
+		}
+		e["accepted"] = true
+		e["bytes"] = ints(r.Bytes())
+		f, _, _ := reqFields(r)
+		stored := bytesOf(f["data"].([]int)) // what the device keeps: the request's packed coil bytes
+		resp := packet.ReadCoilsResponse{UnitID: uint8(c.Unit), CoilsByteLength: uint8(len(stored)), Data: stored}
+		got := []int{}
+		for i := range c.Coils {
+			v, err := resp.IsCoilSet(uint16(c.Addr), uint16(c.Addr+i))
+			if err != nil {
+				got = append(got, 2)
+			} else {
+				got = append(got, b2i(v))
+			}
+		}
+		e["got"] = got
+	}()
+	return e
 }
